@@ -407,6 +407,8 @@ class C03(ClientProp):
                 o = {"op": name, "a": {"pos": rng.randrange(101)} if name == "set_position" else {}, "replies": [login(rng), rep]}
         o["tick"] = rng.choice([0, 0, 0.5, 1, 1.25, 60, 3600.5])
         o["tick_mid"] = rng.choice([0, 0, 0.75, 2])
+        if rng.random() < 0.06:
+            o["cancel_at"] = rng.randrange(1, 4)       # the caller gives up while waiting for the k-th reply of this operation
         return o
 
     def scenarios(self, ctx: Ctx):
